@@ -351,6 +351,7 @@ def run(repo: Repo, ctx, descriptive: bool = False) -> None:
     _r4(repo, ctx)
     _r5(repo, ctx)
     _r6(repo, ctx)
+    _r7(repo, ctx)
 
 
 def _r4(repo: Repo, ctx) -> None:
@@ -645,3 +646,103 @@ def _r6(repo: Repo, ctx) -> None:
            'through EXTENDING (a rebase, not a pointer subcommand) are '
            'missing from (A | B), and no DDL can add them afterwards',
            af.loc, sample='not canonical -> refresh unions')
+
+
+def _r7(repo: Repo, ctx) -> None:
+    """C02.R7 three couplings between what the diff looks at and what the
+    migration has to change.
+
+    (a) a propagation loop whose commands are tagged `implicit_propagation`
+        (the tag stops those commands from propagating any further) ranges
+        over *all* descendants, not just the children: otherwise a rename or
+        alter of an inherited pointer stops at depth one and grandchildren
+        keep the old pointer.
+    (b) the order of an enum's labels is part of the type: the decision to
+        generate the rebase that carries new `enum_values` does not compare
+        them order-insensitively (set / sorted).
+    (c) the module filter of the schema iterator (what delta_schemas uses to
+        leave the standard library out) matches module names exactly or up
+        to a `::` boundary: a bare string prefix also swallows user modules
+        such as `system` or `schemas`."""
+    ctx.floor('C02.R7', 3)
+    # (a)
+    n = 0
+    for qn, f in sorted(repo.functions.items()):
+        if not f.module.name.startswith('edb.schema.'):
+            continue
+        for lp in [l for l in ast.walk(f.node) if isinstance(l, ast.For)]:
+            tags = [c for c in ast.walk(lp) if isinstance(c, ast.Call)
+                    and isinstance(c.func, ast.Attribute)
+                    and c.func.attr == 'set_annotation' and c.args
+                    and isinstance(c.args[0], ast.Constant)
+                    and c.args[0].value == 'implicit_propagation']
+            if not tags:
+                continue
+            n += 1
+            ctx.saw(f)
+            it = norm(lp.iter)
+            ok = 'descendants(' in it
+            ctx.ob('C02.R7', f'{f.qualname.split("edb.schema.")[-1]}:'
+                   f'tagged-propagation-reaches-all-descendants', ok,
+                   f'{f.qualname} propagates over `{it}` and tags every '
+                   f'propagated command implicit_propagation, which stops '
+                   f'it from propagating further: descendants below the '
+                   f'first level are never updated (a renamed inherited '
+                   f'pointer keeps its old name in grandchildren)',
+                   f'{f.module.rel()}:{lp.lineno}', sample=it)
+    if n < 1:
+        raise AnalysisError('C02.R7: no tagged propagation loop found')
+    # (b)
+    st = repo.cls('edb.schema.scalars.ScalarType')
+    ad = st.methods.get('as_alter_delta')
+    if ad is None:
+        raise AnalysisError('C02.R7: ScalarType.as_alter_delta not found')
+    ctx.saw(ad)
+    guards = [t for t in ast.walk(ad.node) if isinstance(t, ast.If) and any(
+        isinstance(c, ast.Call) and (call_name(c) or '').endswith(
+            'RebaseScalarType') for x in t.body for c in ast.walk(x))]
+    if not guards:
+        raise AnalysisError('C02.R7: enum rebase of as_alter_delta not found')
+    for t in guards:
+        insens = [norm(c)[:40] for c in ast.walk(t.test)
+                  if isinstance(c, ast.Call) and norm(c.func) in (
+                      'set', 'frozenset', 'sorted')]
+        ctx.ob('C02.R7', 'ScalarType.as_alter_delta:enum-order-counts',
+               not insens,
+               f'the enum rebase is generated only when {insens} differ: a '
+               f'migration that only reorders the labels is computed as '
+               f'empty (and reported complete) while the old order stays',
+               f'{ad.module.rel()}:{t.lineno}', sample=norm(t.test)[:60])
+    # (c)
+    si = repo.cls('edb.schema.schema.SchemaIterator')
+    init = si.methods.get('__init__')
+    if init is None:
+        raise AnalysisError('C02.R7: SchemaIterator.__init__ not found')
+    ctx.saw(init)
+    lams = [l for l in ast.walk(init.node) if isinstance(l, ast.Lambda)
+            and 'get_module_name' in norm(l)]
+    if len(lams) < 2:
+        raise AnalysisError('C02.R7: module filters of SchemaIterator not '
+                            'found')
+    for l in lams:
+        bad = []
+        for c in ast.walk(l.body):
+            if isinstance(c, ast.Call) and isinstance(
+                    c.func, ast.Attribute) and c.func.attr in (
+                    'startswith', 'endswith', 'find'):
+                bad.append(norm(c)[:50])
+            if isinstance(c, ast.Compare) and isinstance(
+                    c.ops[0], (ast.In, ast.NotIn)) and isinstance(
+                    c.comparators[0], (ast.Constant, ast.JoinedStr)):
+                bad.append(norm(c)[:50])
+        # a prefix test is fine when it carries the `::` boundary
+        bad = [b for b in bad if '::' not in b]
+        ctx.ob('C02.R7', f'SchemaIterator:module-filter@'
+               f'{"excluded" if "not in" in norm(l) or "not " in norm(l)[:60] else "included"}',
+               not bad,
+               f'a module filter of the schema iterator matches by bare '
+               f'string prefix ({bad}): with the standard modules excluded, '
+               f'user modules whose names merely start like one (`system`, '
+               f'`schemas`, `extras`) are invisible to the diff and their '
+               f'objects are never created', f'{init.module.rel()}:'
+               f'{l.lineno}', sample='exact module-name membership')
